@@ -143,15 +143,29 @@ func replayCexFile(scratch string, ov map[string]string, pi pkgInfo, cex string)
 	if err := os.WriteFile(ovPath, ob, 0644); err != nil {
 		return replayOutcome{Verdict: "error", Output: err.Error()}
 	}
-	ctx, cancel := context.WithTimeout(context.Background(), 240*time.Second)
-	defer cancel()
 	sub := "./" + pi.RepoSub
 	if pi.RepoSub == "" {
 		sub = "."
 	}
-	cmd := exec.CommandContext(ctx, "go", "test", "-vet=off", "-count=1", "-tags", "verif", "-overlay", ovPath, "-run", "^TestVerifReplay$", "-timeout", "120s", "-v", sub)
-	cmd.Dir = repoDir
-	cmd.Env = append(os.Environ(), "GOFLAGS=-mod=mod", "GOPROXY=off", "GOSUMDB=off", "GOTOOLCHAIN=local", "VERIF_CEX="+cex)
+	env := append(os.Environ(), "GOFLAGS=-mod=mod", "GOPROXY=off", "GOSUMDB=off", "GOTOOLCHAIN=local", "VERIF_CEX="+cex)
+	bin := filepath.Join(scratch, pi.HarnessDir+".test")
+	if _, err := os.Stat(bin); err != nil {
+		// build the test binary once per package and run
+		bctx, bcancel := context.WithTimeout(context.Background(), 600*time.Second)
+		defer bcancel()
+		build := exec.CommandContext(bctx, "go", "test", "-c", "-o", bin, "-vet=off", "-tags", "verif", "-overlay", ovPath, sub)
+		build.Dir = repoDir
+		build.Env = env
+		if bout, err := build.CombinedOutput(); err != nil {
+			os.Remove(bin)
+			return replayOutcome{Verdict: "error", Output: "building replay binary failed: " + string(bout)}
+		}
+	}
+	ctx, cancel := context.WithTimeout(context.Background(), 240*time.Second)
+	defer cancel()
+	cmd := exec.CommandContext(ctx, bin, "-test.run", "^TestVerifReplay$", "-test.timeout", "120s", "-test.v")
+	cmd.Dir = filepath.Join(repoDir, pi.RepoSub)
+	cmd.Env = env
 	out, _ := cmd.CombinedOutput()
 	txt := string(out)
 	res := replayOutcome{Output: txt, CexPath: cex}
